@@ -20,9 +20,9 @@ C02Bound(g) == (4 * N(g) + 10) * P(g)
 
 C02Call(g0, g1, e) ==
     LET x == e.node IN
-    V(e.res = "Ok", "call-returned-an-error-in-a-fault-free-run")
-    \cup V(\A i \in DOMAIN EvNotes(e) : EvNotes(e)[i].k \notin BadNotes, "MemberDown/Idle/Defunct/Rejoin-in-a-fault-free-run")
-    \cup V(\A i \in DOMAIN g1.view[x] :
+    Vc(e.res = "Ok", "call-returned-an-error-in-a-fault-free-run")
+    \cup Vc(\A i \in DOMAIN EvNotes(e) : EvNotes(e)[i].k \notin BadNotes, "MemberDown/Idle/Defunct/Rejoin-in-a-fault-free-run")
+    \cup Vc(\A i \in DOMAIN g1.view[x] :
               (\E y \in Up(g1) \ {x} : g1.ids[y] = g1.view[x][i].id) => g1.view[x][i].st = "A",
            "live-member-recorded-as-Suspect-or-Down-in-a-fault-free-run")
 
@@ -41,7 +41,7 @@ C02End(g, e) ==
         ELSE IF told THEN {"discovery-incomplete:member-was-told-but-is-not-listed"}
         ELSE IF pending THEN {"discovery-incomplete:dissemination-still-pending-at-the-bound"}
         ELSE {"discovery-incomplete:epidemic-extinct-before-reaching-everyone"})
-       \cup V(extra = {}, "lists-an-identity-that-is-not-a-live-member")
+       \cup Vc(extra = {}, "lists-an-identity-that-is-not-a-live-member")
 
 -----------------------------------------------------------------------------
 (* C03  completeness after crash / leave, bounded                          *)
@@ -66,13 +66,13 @@ C03Call(g0, g1, e) ==
         downs == NotesOf(e, "MemberDown")
         survivors == {g1.ids[y] : y \in Up(g1)}
         din == EvDin(e)
-    IN V(g1.status[x] # "up" \/ downs \cap survivors = {}, "surviving-member-declared-Down")
-       \cup V((g1.status[x] = "up" /\ e.call = "data" /\ e.res = "Ok" /\ EvFrom(e) \in g1.leaver
+    IN Vc(g1.status[x] # "up" \/ downs \cap survivors = {}, "surviving-member-declared-Down")
+       \cup Vc((g1.status[x] = "up" /\ e.call = "data" /\ e.res = "Ok" /\ EvFrom(e) \in g1.leaver
                /\ EvFrom(e) \in ActiveOf(g0.view[x])
                /\ \E i \in DOMAIN din : din[i].id = EvFrom(e) /\ din[i].st = "D") =>
                  EvFrom(e) \in downs,
               "leaver's-own-Down-gossip-not-reported-immediately")
-       \cup V(g1.status[x] = "left" => \A i \in DOMAIN EvSendKinds(e) : EvSendKinds(e)[i] # "Ack",
+       \cup Vc(g1.status[x] = "left" => \A i \in DOMAIN EvSendKinds(e) : EvSendKinds(e)[i] # "Ack",
               "member-that-left-still-answers-probes")
 
 C03Track(g, e) ==
@@ -84,7 +84,7 @@ C03Track(g, e) ==
 
 C03End(g, e) ==
     IF g.tFault < 0 \/ e.now < C03Deadline(g) THEN {}
-    ELSE V(\A s \in Up(g) : s \in DOMAIN g.listed =>
+    ELSE Vc(\A s \in Up(g) : s \in DOMAIN g.listed =>
               \A i \in g.listed[s] :
                  s \in DOMAIN g.downAt /\ i \in DOMAIN g.downAt[s] /\ g.downAt[s][i] <= C03Deadline(g),
            "failed-member-not-reported-Down-within-(2n+1)-periods-plus-suspect_to_down_after")
@@ -95,12 +95,12 @@ C03End(g, e) ==
 C04Bound(g) == g.hdr.s2d + (2 * N(g) + 2) * P(g)
 
 C04Call(g0, g1, e) ==
-    V(~g1.formed \/ \A i \in DOMAIN EvNotes(e) : EvNotes(e)[i].k \notin {"MemberDown", "Defunct", "Rejoin"},
+    Vc(~g1.formed \/ \A i \in DOMAIN EvNotes(e) : EvNotes(e)[i].k \notin {"MemberDown", "Defunct", "Rejoin"},
       "MemberDown/Defunct/Rejoin-after-a-single-lost-datagram")
 
 C04End(g, e) ==
     IF g.tDrop < 0 \/ e.now < g.tDrop + C04Bound(g) THEN {}
-    ELSE V(\A x \in Up(g) : \A y \in Up(g) \ {x} :
+    ELSE Vc(\A x \in Up(g) : \A y \in Up(g) \ {x} :
               LET r == RowFor(e.views[x + 1].state, g.ids[y]) IN r # <<>> /\ r[1].st = "A",
            "not-everyone-Alive-again-within-the-bound-after-a-single-lost-datagram")
 
@@ -112,8 +112,8 @@ C05Bound(g) == 8 * g.hdr.pad
 C05Call(g0, g1, e) ==
     LET x == e.node
         rj == NotesOf(e, "Rejoin")
-    IN V(~HasNote(e, "Defunct"), "Defunct-instead-of-Rejoin-with-renewable-identity")
-       \cup V(\A i \in rj : Wins(i, g0.ids[x]) \/ i = g1.ids[x], "Rejoin-with-identity-that-does-not-win")
+    IN Vc(~HasNote(e, "Defunct"), "Defunct-instead-of-Rejoin-with-renewable-identity")
+       \cup Vc(\A i \in rj : Wins(i, g0.ids[x]) \/ i = g1.ids[x], "Rejoin-with-identity-that-does-not-win")
 
 C05Track(g, e) ==
     LET x == e.node
@@ -125,18 +125,18 @@ C05Track(g, e) ==
 
 C05End(g, e) ==
     IF g.tHeal < 0 \/ e.now < g.tHeal + C05Bound(g) THEN {}
-    ELSE V(\A x \in Up(g) : \A y \in Up(g) \ {x} :
+    ELSE Vc(\A x \in Up(g) : \A y \in Up(g) \ {x} :
               g.ids[y] \in {e.views[x + 1].members[i] : i \in DOMAIN e.views[x + 1].members},
            "not-every-live-instance-listed-under-its-current-identity-after-heal")
-         \cup V(g.toldDown \subseteq g.rejoined, "told-it-is-down-but-did-not-report-Rejoin")
-         \cup V(g.rejoined \subseteq g.activeAfter, "rejoined-but-did-not-report-Active-afterwards")
+         \cup Vc(g.toldDown \subseteq g.rejoined, "told-it-is-down-but-did-not-report-Rejoin")
+         \cup Vc(g.rejoined \subseteq g.activeAfter, "rejoined-but-did-not-report-Active-afterwards")
 
 -----------------------------------------------------------------------------
 (* C18  reply cascades terminate (timers held)                             *)
 
 C18Call(g0, g1, e) ==
-    V(e.call # "data" \/ Len(EvSendKinds(e)) <= 2 * g1.hdr.fanout + 2,
+    Vc(e.call # "data" \/ Len(EvSendKinds(e)) <= 2 * g1.hdr.fanout + 2,
       "one-delivery-caused-more-than-2*fanout+2-datagrams")
 
-C18End(g, e) == V(e.inflight = 0, "reply-cascade-did-not-terminate-within-the-cap")
+C18End(g, e) == Vc(e.inflight = 0, "reply-cascade-did-not-terminate-within-the-cap")
 =============================================================================
